@@ -47,6 +47,13 @@ def gen_sql(rnd, kind):
             body = loop + body if rnd.random() < 0.5 else body + "\n" + loop
         return add_noqa(rnd, body, 0.15)
     parts = [g.finish(g.query()) for _ in range(rnd.randint(1, 3))]
+    if kind == "loop":
+        # loops only (no if/else, so a single rendering variant): the block tracker sees the same source slices again
+        # only when the file is processed again
+        loops = ["{% for i in items %}\nSELECT {{ i }} FROM t1;\n{% endfor %}\n",
+                 "SELECT\n{% for c in col_list %}\n    {{ c }},\n{% endfor %}\n    1 AS one\nFROM t1;\n",
+                 "{% for i in range(n) %}\n{% for c in col_list %}\nSELECT {{ c }}  FROM t{{ i }};\n{% endfor %}\n{% endfor %}\n"]
+        return add_noqa(rnd, rnd.choice(loops) + "".join(p.rstrip() + (";\n" if not p.rstrip().endswith(";") else "\n") for p in parts[:1]), 0.15)
     if kind == "broken":
         for _ in range(rnd.randint(1, 2)):
             tail = ("  -- " + rnd.choice(NOQA_SPECIAL)) if rnd.random() < 0.6 else ""
@@ -87,14 +94,14 @@ def gen_case(rnd):
     dirs = list(dir_meta)
     # always: one file under the disable_noqa_except config, one broken file outside it, one template
     forced = [("n", rnd.choice(["gsql", "broken", "jinja"])), (rnd.choice(["", "x", "x/deep"]), "broken"),
-              (rnd.choice(["", "x", "r"]), "jinja")]
+              (rnd.choice(["", "x", "r"]), rnd.choice(["jinja", "loop"]))]
     rnd.shuffle(forced)
     for i in range(rnd.randint(4, 6)):
         if i < len(forced):
             d, kind = forced[i]
         else:
             d = rnd.choice(dirs)
-            kind = rnd.choice(["gsql", "gsql", "broken", "jinja", "inline", "inline"])
+            kind = rnd.choice(["gsql", "gsql", "broken", "jinja", "loop", "inline", "inline"])
         p = posixpath.join(d, "f%d.sql" % i)
         sql = gen_sql(rnd, kind)
         tree["proj/" + p] = sql
@@ -179,7 +186,7 @@ class C32(Check):
         "A case is a generated project (root .sqlfluff with a dialect and a jinja context; nested x/ with another "
         "dialect, x/deep/tox.ini, n/ with disable_noqa_except, r/pyproject.toml with rule selection / disable_noqa) with "
         "4-6 files: generated valid queries with layout noise, broken SQL (parse, lex and templating errors), jinja "
-        "templates with loops / if-else blocks / set / macros, inline `-- sqlfluff:` directives, and noqa comments by "
+        "templates with loops / if-else blocks / set / macros, loop-only templates, inline `-- sqlfluff:` directives, and noqa comments by "
         "code, name, group, glob (`L*`, `P*`, `?RS`), PRS/LXR/TMP, enable/disable ranges. A history of 9-13 steps is "
         "played in ONE child process: Linter.lint_paths on files / directories / '.', parse_path, render_file, "
         "lint_string in any of 6 dialects with config strings that use disable_noqa_except / disable_noqa / rule "
